@@ -274,8 +274,17 @@ class Inliner:
                         and n.id not in [x.arg for x in a.args + a.kwonlyargs]:
                     if self.model.resolve_name(h.module, n.id) is not self.model.resolve_name(f.module, n.id):
                         import builtins
-                        if not hasattr(builtins, n.id):
-                            return None
+                        if hasattr(builtins, n.id):
+                            continue
+                        # a constant of the helper's module (a message table, a tuple of classes) that the caller's module does not
+                        # define: made visible there under the same name
+                        if n.id in h.module.assigns and f.module.assigns.get(n.id) is h.module.assigns[n.id]:
+                            continue  # made visible earlier
+                        if n.id in h.module.assigns and n.id not in f.module.assigns and self.model.resolve_name(f.module, n.id) is None \
+                                and isinstance(h.module.assigns[n.id], (ast.Dict, ast.Tuple, ast.List, ast.Set, ast.Constant)):
+                            f.module.assigns[n.id] = h.module.assigns[n.id]
+                            continue
+                        return None
         return h
 
     def _bind(self, h: FuncInfo, call: ast.Call, selfname: str) -> Optional[tuple[dict, list]]:
